@@ -264,10 +264,10 @@ Section Concrete.
   Hypothesis b512_ok : forall x, bytes_ok (blake2b512 x).
 
   Theorem substrate_accepts_iff_concrete curve fmt s d :
-    substrate_decode valid_pub (AddrInst.ss58_dec blake2b512) curve fmt s = Ok d <->
-    substrate_encode (AddrInst.ss58_enc blake2b512) fmt d = Ok s /\ bytes_ok d /\ valid_pub curve d = true.
+    substrate_decode valid_pub (AddrCodecs.ss58_dec blake2b512) curve fmt s = Ok d <->
+    substrate_encode (AddrCodecs.ss58_enc blake2b512) fmt d = Ok s /\ bytes_ok d /\ valid_pub curve d = true.
   Proof using b512_len b512_ok.
-    rewrite substrate_accepts_iff. unfold AddrInst.ss58_dec, AddrInst.ss58_enc, substrate_encode.
+    rewrite substrate_accepts_iff. unfold AddrCodecs.ss58_dec, AddrCodecs.ss58_enc, substrate_encode.
     rewrite (SS58Ok.ss58_accepts_iff blake2b512 b512_len b512_ok).
     split; [intros ((A & B) & C)|intros (A & B & C)]; repeat split; assumption.
   Qed.
